@@ -30,6 +30,7 @@ type oracleInput struct {
 	Boards bool  `json:"boards,omitempty"`
 	Gen    int   `json:"gen,omitempty"`    // 0/1: one block per object, everything tagged; 2: oracleProgram2
 	Script int   `json:"script,omitempty"` // 1-based index into oracleScripts: a written program and edit list
+	ImpUpd int   `json:"impupd,omitempty"` // >0: import-update history #ImpUpd (oracleimports.go)
 }
 
 func init() { register("oracle", driveOracle) }
@@ -253,9 +254,21 @@ func driveOracle(c *Ctx) error {
 			for i := range oracleScripts {
 				inputs = append(inputs, oracleInput{Seed: 1, Script: i + 1})
 			}
+			// import updates (file renamed, directory renamed, import removed) on programs that import from several directories
+			k := 120
+			if c.Thorough() {
+				k = 1200
+			}
+			for i := 1; i <= k; i++ {
+				inputs = append(inputs, oracleInput{Seed: int64(i), ImpUpd: i})
+			}
 		}
 	}
 	for _, in := range inputs {
+		if in.ImpUpd > 0 {
+			c.W.Add(in, []tr.M{importUpdateEvent(int64(in.ImpUpd))}, "C36")
+			continue
+		}
 		evs, nt := oracleRun(in)
 		c.W.Add(in, evs, nt...)
 		for _, p := range nt {
